@@ -25,7 +25,11 @@ fn main() {
         std::process::exit(2);
     }
     // library panics are data, not noise
-    std::panic::set_hook(Box::new(|_| {}));
+    std::panic::set_hook(Box::new(|i| {
+        if std::env::var("VH_PANIC").is_ok() {
+            eprintln!("{}", i);
+        }
+    }));
     match args[1].as_str() {
         "fs" => {
             // vh fs <scenarios.json> <out.ndjson> [--crash permille] [--remount] [--seed n] [--skip k] [--append]
